@@ -202,49 +202,87 @@ theorem query_faithful (h : compile banned f = .ok c) (ho : obeysF f = true) {m 
     rw [hxq]
     exact content_query_none _ (fun k hk' => hno k.dir (List.mem_map_of_mem hk'))
 
-/-- the request: the Request children of the method directive merged (`reqOf`: id of the first one; the body the
-first one that has one supplies — its own or that of its `Body` child; headers iff one has a `Headers` child);
-absent iff there is no Request child.
-
-Adjustment: the code does NOT reject a second Request directive under one method (`Catalog.AddRequest` keeps the
-first request silently) — see `exTwoRequests`. -/
+/-- the request.  In an accepted forest a method directive has AT MOST ONE Request child (a second one is refused
+with `notUnique`, see `second_request_rejected`); the request is absent iff there is none; with the Request child
+`r` it is: the id of `r`, the body of `r` (`reqBodyOf`: own `Type` / body / any-empty notation, else the `Body`
+child), headers iff `r` has a `Headers` child. -/
 theorem request_faithful (h : compile banned f = .ok c) (ho : obeysF f = true) {a : List Up} {t : BTree}
     (hp : (a, t) ∈ subsF [] f) (hm : isMeth t.dir.kind = true) {x : InterM} (hx : x ∈ c.inters)
     (hxi : idOf (entOf (a, t)) = .ok x.iid) :
-    x.request = reqOf t.kids ∧ (x.request = none ↔ ∀ k ∈ t.kids, k.dir.kind ≠ .Request) := by
+    (t.kids.filter (·.dir.kind == .Request)).length ≤ 1 ∧
+    (x.request = none ↔ ∀ k ∈ t.kids, k.dir.kind ≠ .Request) ∧
+    (∀ r ∈ t.kids, r.dir.kind = .Request →
+      x.request = some { id := r.dir.id, body := reqBodyOf r.dir (r.kids.map BTree.dir),
+                         headers := decide (∃ g ∈ r.kids, g.dir.kind = .Headers) }) := by
   have hc := (inter_content h ho hp hm hx hxi).1
+  have hone := meth_one_request h ho hp hm
   have hr : x.request = reqOf t.kids := by
     rw [hc]; simp [interOf, addC, content_request, mergeReq]
-  refine ⟨hr, ?_⟩
-  rw [hr]
-  unfold reqOf
-  constructor
-  · intro hn k hk' hkd
-    have hmem : k ∈ t.kids.filter (·.dir.kind == .Request) := List.mem_filter.mpr ⟨hk', by simp [hkd]⟩
-    cases hl : t.kids.filter (·.dir.kind == .Request) with
-    | nil => rw [hl] at hmem; cases hmem
-    | cons q qs =>
-      rw [hl] at hn
-      simp only [List.map_cons, List.foldr_cons] at hn
-      generalize List.foldr _ none (List.map reqPart qs) = acc at hn
-      cases acc <;> cases hn
-  · intro hno
-    have : t.kids.filter (·.dir.kind == .Request) = [] := by
-      rw [List.filter_eq_nil_iff]
-      intro k hk'
-      simpa using hno k hk'
-    rw [this]; rfl
+  refine ⟨hone, ?_, ?_⟩
+  · rw [hr]
+    unfold reqOf
+    constructor
+    · intro hn k hk' hkd
+      cases hf : t.kids.find? (·.dir.kind == .Request) with
+      | none => exact absurd (by simp [hkd]) (List.find?_eq_none.mp hf k hk')
+      | some q => rw [hf] at hn; cases hn
+    · intro hno
+      have : t.kids.find? (·.dir.kind == .Request) = none := by
+        rw [List.find?_eq_none]
+        intro k hk'
+        simpa using hno k hk'
+      rw [this]; rfl
+  · intro r hr' hkr
+    -- the first Request child is `r`: there is no other one
+    have hfr : t.kids.find? (·.dir.kind == .Request) = some r := by
+      cases hf : t.kids.find? (·.dir.kind == .Request) with
+      | none => exact absurd (by simp [hkr]) (List.find?_eq_none.mp hf r hr')
+      | some q =>
+        have hq : q ∈ t.kids.filter (·.dir.kind == .Request) :=
+          List.mem_filter.mpr ⟨List.mem_of_find?_eq_some hf,
+            List.find?_some (p := fun x : BTree => x.dir.kind == Kind.Request) hf⟩
+        have hrm : r ∈ t.kids.filter (·.dir.kind == .Request) := List.mem_filter.mpr ⟨hr', by simp [hkr]⟩
+        cases hl : t.kids.filter (·.dir.kind == .Request) with
+        | nil => rw [hl] at hq; cases hq
+        | cons z zs =>
+          rw [hl] at hq hrm hone
+          cases zs with
+          | nil =>
+            simp only [List.mem_singleton] at hq hrm
+            rw [hq, hrm]
+          | cons z' zs' => simp at hone
+    rw [hr, reqOf, hfr]
+    have hh : hasKind .Headers (r.kids.map BTree.dir) = decide (∃ g ∈ r.kids, g.dir.kind = .Headers) := by
+      rw [Bool.eq_iff_iff]
+      simp [hasKind]
+    simp only [Option.map_some, reqPart, hh]
 
-/-- the usual case, one Request child `k`: present, with the body of `k` (`reqBodyOf`: own `Type` / body /
-any-empty notation, else the `Body` child) and headers iff `k` has a `Headers` child -/
+/-- the usual reading: with the Request child `k` the request is present, with the id and the body of `k`
+(`reqBodyOf`) and headers iff `k` has a `Headers` child -/
 theorem request_single (h : compile banned f = .ok c) (ho : obeysF f = true) {a : List Up} {t : BTree}
     (hp : (a, t) ∈ subsF [] f) (hm : isMeth t.dir.kind = true) {x : InterM} (hx : x ∈ c.inters)
     (hxi : idOf (entOf (a, t)) = .ok x.iid) {k : BTree} (hk : t.kids.filter (·.dir.kind == .Request) = [k]) :
     ∃ q, x.request = some q ∧ q.id = k.dir.id ∧ q.body = reqBodyOf k.dir (k.kids.map BTree.dir) ∧
       (q.headers = true ↔ ∃ g ∈ k.kids, g.dir.kind = .Headers) := by
-  have hr := (request_faithful h ho hp hm hx hxi).1
-  refine ⟨reqPart k, by rw [hr, reqOf, hk]; rfl, rfl, rfl, ?_⟩
-  simp [reqPart, hasKind]
+  have hmem : k ∈ t.kids.filter (·.dir.kind == .Request) := by rw [hk]; exact List.mem_singleton.mpr rfl
+  obtain ⟨hkm, hkk⟩ := List.mem_filter.mp hmem
+  have hr := (request_faithful h ho hp hm hx hxi).2.2 k hkm (by simpa using hkk)
+  exact ⟨_, hr, rfl, rfl, by simp⟩
+
+/-- a second Request directive of one method is rejected: an HTTP method directive (anywhere in the forest; no
+nesting hypothesis) with Request children at two positions.  The model refuses the second one with `notUnique`
+(`Catalog.AddRequest`); see `exTwoRequests`. -/
+theorem second_request_rejected {a : List Up} {d : BDir} {kids : List BTree} {i j : Nat} {k₁ k₂ : BTree}
+    (hp : (a, .node d kids) ∈ subsF [] f) (hH : isHTTP d.kind = true) (hij : i ≠ j)
+    (h₁ : kids[i]? = some k₁) (h₂ : kids[j]? = some k₂) (r₁ : k₁.dir.kind = .Request)
+    (r₂ : k₂.dir.kind = .Request) : ∀ c, compile banned f ≠ .ok c := by
+  intro c h
+  have hle := http_one_request h hp hH
+  have hge : 2 ≤ (kids.filter (·.dir.kind == .Request)).length := by
+    rcases Nat.lt_or_gt_of_ne hij with hlt | hgt
+    · exact two_filter _ kids i j k₁ k₂ hlt h₁ h₂ (by simp [r₁]) (by simp [r₂])
+    · exact two_filter _ kids j i k₂ k₁ hgt h₂ h₁ (by simp [r₂]) (by simp [r₁])
+  omega
 
 /-- `params` / `result` are set iff the method directive has a Params / Result child -/
 theorem rpc_params_result_faithful (h : compile banned f = .ok c) (ho : obeysF f = true) {m : Ent}
@@ -261,5 +299,168 @@ theorem rpc_params_result_faithful (h : compile banned f = .ok c) (ho : obeysF f
   unfold hasKind
   simp only [List.any_eq_true, beq_iff_eq]
   exact ⟨Iff.rfl, Iff.rfl⟩
+
+/-! ## (5) the INFO block -/
+
+/-- `c.info` holds the id of the INFO directive, the Title and the Version of its Title / Version children ("" when
+there is none) and the normal form of the body of its Description child (`infoOf`).
+
+Hypotheses: the nesting table; no MACRO directive left (MACRO definitions are removed before `buildCatalog`; a MACRO
+admits Title / Version children); admissible root directives (`IsAllowedForRootContext`).  In the model, without
+them, a Title directive anywhere in the document fills the block. -/
+theorem info_faithful (h : compile banned f = .ok c) (ho : obeysF f = true)
+    (hnm : ∀ d ∈ flatF f, d.kind ≠ .Macro) (hroot : ∀ t ∈ f, rootAllowed.contains t.dir.kind = true)
+    {d : BDir} {kids : List BTree} (ht : BTree.node d kids ∈ f) (hk : d.kind = .Info) :
+    ∃ i, c.info = some i ∧ i.id = d.id ∧
+      i.title = firstParam .Title "Title" (kids.map BTree.dir) ∧
+      i.version = firstParam .Version "Version" (kids.map BTree.dir) ∧
+      i.descr = ((kids.map BTree.dir).find? (·.kind == .Description)).bind descrText :=
+  ⟨_, info_content h ho hnm hroot ht hk, rfl, rfl, rfl, rfl⟩
+
+/-- no INFO directive, no INFO block (no hypothesis on the forest) -/
+theorem info_absent (h : compile banned f = .ok c) (hno : ∀ d ∈ flatF f, d.kind ≠ .Info) : c.info = none :=
+  info_none h hno
+
+/-! ## concrete checks: the hypotheses are satisfiable -/
+
+/-- `GET // List cats` with Description, Query, Request (Headers, Body), three responses (`200 any`;
+`404 // nf` with Headers and a regex Body; `500 @err`) -/
+def exGet : BTree :=
+  .node { kind := .Get, annot := [76, 105, 115, 116, 32, 99, 97, 116, 115], id := 10 } [
+    .node { kind := .Description, body := some [104, 101, 108, 108, 111], id := 11 } [],
+    .node { kind := .Query, named := [("QueryExample", [97, 61, 49])], body := some [123, 125], id := 12 } [],
+    .node { kind := .Request, id := 13 } [
+      .node { kind := .Headers, body := some [123, 125], id := 14 } [],
+      .node { kind := .Body, body := some [123, 125], id := 15 } []],
+    .node { kind := .HTTPResponseCode, keyword := [50, 48, 48], named := [("SchemaNotation", [97, 110, 121])], id := 16 } [],
+    .node { kind := .HTTPResponseCode, keyword := [52, 48, 52], annot := [110, 102], id := 17 } [
+      .node { kind := .Headers, body := some [123, 125], id := 18 } [],
+      .node { kind := .Body, named := [("SchemaNotation", [114, 101, 103, 101, 120])], body := some [47, 97, 47], id := 19 } []],
+    .node { kind := .HTTPResponseCode, keyword := [53, 48, 48], named := [("Type", [64, 101, 114, 114])], id := 20 } []]
+
+/-- `Method foo // Foo` with Params and Result -/
+def exMeth : BTree :=
+  .node { kind := .Method, named := [("MethodName", [102, 111, 111])], annot := [70, 111, 111], id := 30 } [
+    .node { kind := .Params, body := some [123, 125], id := 31 } [],
+    .node { kind := .Result, body := some [123, 125], id := 32 } []]
+
+def exUrl : BDir := { kind := .URL, named := [("Path", [47, 99, 97, 116, 115])], id := 2 }
+def exRpcUrl : BDir := { kind := .URL, named := [("Path", [47, 114, 112, 99])], id := 3 }
+def exProto : BTree := .node { kind := .Protocol, named := [("ProtocolName", [106, 115, 111, 110, 45, 114, 112, 99, 45, 50, 46, 48])], id := 4 } []
+
+/-- JSIGHT 0.3, INFO (Title, Version, Description), URL /cats with `exGet`, URL /rpc with Protocol and `exMeth` -/
+def exG : List BTree := [
+  .node { kind := .Jsight, named := [("Version", [48, 46, 51])] } [],
+  .node { kind := .Info, id := 1 } [
+    .node { kind := .Title, named := [("Title", [77, 121, 32, 65, 80, 73])], id := 5 } [],
+    .node { kind := .Version, named := [("Version", [49, 46, 48])], id := 6 } [],
+    .node { kind := .Description, body := some [97, 98, 111, 117, 116], id := 7 } []],
+  .node exUrl [exGet],
+  .node exRpcUrl [exProto, exMeth]]
+
+def exGC : Cat := match compile [] exG with | .ok c => c | .error _ => {}
+
+theorem exG_ok : compile [] exG = .ok exGC := by decide +kernel
+theorem exG_obeys : obeysF exG = true := by decide +kernel
+
+def exGetAnc : List Up := [⟨exUrl, [exGet.dir]⟩]
+def exMethAnc : List Up := [⟨exRpcUrl, [exProto.dir, exMeth.dir]⟩]
+theorem exGet_mem : (exGetAnc, exGet) ∈ subsF [] exG := List.mem_of_getElem? (i := 6) (by rfl)
+theorem exMeth_mem : (exMethAnc, exMeth) ∈ subsF [] exG := List.mem_of_getElem? (i := 19) (by rfl)
+theorem exGetE_mem : entOf (exGetAnc, exGet) ∈ flatAF [] exG := List.mem_of_getElem? (i := 6) (by rfl)
+theorem exMethE_mem : entOf (exMethAnc, exMeth) ∈ flatAF [] exG := List.mem_of_getElem? (i := 19) (by rfl)
+
+/-- the two interactions -/
+def exDflt : InterM := { iid := ⟨.http, [], []⟩, annot := [] }
+def exX : InterM := (exGC.inters[0]?).getD exDflt
+def exY : InterM := (exGC.inters[1]?).getD exDflt
+theorem exX_mem : exX ∈ exGC.inters := List.mem_of_getElem? (i := 0) (by decide +kernel)
+theorem exY_mem : exY ∈ exGC.inters := List.mem_of_getElem? (i := 1) (by decide +kernel)
+theorem exX_id : idOf (entOf (exGetAnc, exGet)) = .ok exX.iid := by decide +kernel
+theorem exY_id : idOf (entOf (exMethAnc, exMeth)) = .ok exY.iid := by decide +kernel
+
+-- GET /cats ; foo /rpc
+example : (exX.iid, exY.iid) = (⟨.http, [71, 69, 84], [47, 99, 97, 116, 115]⟩, ⟨.rpc, [102, 111, 111], [47, 114, 112, 99]⟩) := by decide +kernel
+
+-- (1) 200, 404 // nf, 500
+example : exX.responses.map (fun r => (r.code, r.annot)) = [([50, 48, 48], []), ([52, 48, 52], [110, 102]), ([53, 48, 48], [])] := by
+  rw [responses_faithful exG_ok exG_obeys exGetE_mem rfl exX_mem exX_id]; decide +kernel
+-- (2) bodies: binary/any (own notation), plainString/regex (Body child), json/jsight (own Type); headers only on 404
+example : exX.responses.map (fun r => (r.body, r.headers)) =
+    [(some ⟨fBinary, nAny⟩, false), (some ⟨fPlain, nRegex⟩, true), (some ⟨fJson, nJsight⟩, false)] := by
+  rw [responses_exact exG_ok exG_obeys exGet_mem rfl exX_mem exX_id]; decide +kernel
+example : ∃ s : BDir, s.id = 19 ∧ exX.responses[1]?.map (·.body) = some (some { format := formatOf (notaOf s), nota := notaOf s }) :=
+  ⟨{ kind := .Body, named := [("SchemaNotation", [114, 101, 103, 101, 120])], body := some [47, 97, 47], id := 19 }, rfl, by decide +kernel⟩
+-- (3) "hello"
+example : exX.descr = some [104, 101, 108, 108, 111] :=
+  ((description_faithful exG_ok exG_obeys exGetE_mem rfl exX_mem exX_id).2 _).mpr
+    ⟨{ kind := .Description, body := some [104, 101, 108, 108, 111], id := 11 }, by decide +kernel, rfl, _, rfl, by decide +kernel⟩
+example : exY.descr = none :=
+  (description_faithful exG_ok exG_obeys exMethE_mem rfl exY_mem exY_id).1.mpr (by decide +kernel)
+-- (4) query, request, params, result
+example : exX.query = some { format := htmlFormEncoded, ex := [97, 61, 49] } :=
+  (query_faithful exG_ok exG_obeys exGetE_mem rfl exX_mem exX_id).2
+    { kind := .Query, named := [("QueryExample", [97, 61, 49])], body := some [123, 125], id := 12 } (by decide +kernel) rfl
+example : exX.request = some { id := 13, body := some ⟨fJson, nJsight⟩, headers := true } := by
+  rw [(request_faithful exG_ok exG_obeys exGet_mem rfl exX_mem exX_id).2.2 _ (List.mem_of_getElem? (i := 2) rfl) rfl]
+  decide +kernel
+example : exY.request = none :=
+  (request_faithful exG_ok exG_obeys exMeth_mem rfl exY_mem exY_id).2.1.mpr (by decide +kernel)
+example : exY.params = true ∧ exY.result = true :=
+  ⟨(rpc_params_result_faithful exG_ok exG_obeys exMethE_mem rfl exY_mem exY_id).1.mpr (by decide +kernel),
+   (rpc_params_result_faithful exG_ok exG_obeys exMethE_mem rfl exY_mem exY_id).2.mpr (by decide +kernel)⟩
+example : exX.params = false := by
+  have := (rpc_params_result_faithful exG_ok exG_obeys exGetE_mem rfl exX_mem exX_id).1
+  cases hp : exX.params with
+  | false => rfl
+  | true => exact absurd (this.mp hp) (by decide +kernel)
+-- the whole interaction
+example : exX = interOf exX.iid exGet.dir exX.tags exGet.kids :=
+  interaction_content exG_ok exG_obeys exGet_mem rfl exX_mem exX_id
+
+-- (5) INFO: "My API", "1.0", "about"
+example : exGC.info = some { id := 1, title := [77, 121, 32, 65, 80, 73], version := [49, 46, 48], descr := some [97, 98, 111, 117, 116] } := by
+  rw [info_content exG_ok exG_obeys (by decide +kernel) (by decide +kernel) (d := { kind := .Info, id := 1 })
+    (List.mem_of_getElem? (i := 1) (by rfl)) rfl]
+  decide +kernel
+
+/-- ADJUSTMENT 1 (model only): without `obeysF` the statements fail in the model.  `GET /y` (one response, 200), then
+`GET /x` with a nested `URL /y` that has a response 500: the nested response resolves to the id `GET /y` and lands
+in the interaction of the first directive.  The nesting table forbids a URL below GET, the context resolution
+never produces this forest. -/
+def exAlien : List BTree := [
+  .node { kind := .Jsight, named := [("Version", [48, 46, 51])] } [],
+  .node { kind := .Get, named := [("Path", [47, 121])], id := 1 } [
+    .node { kind := .HTTPResponseCode, keyword := [50, 48, 48], named := [("SchemaNotation", [97, 110, 121])], id := 2 } []],
+  .node { kind := .Get, named := [("Path", [47, 120])], id := 3 } [
+    .node { kind := .HTTPResponseCode, keyword := [50, 48, 48], named := [("SchemaNotation", [97, 110, 121])], id := 4 } [],
+    .node { kind := .URL, named := [("Path", [47, 121])], id := 5 } [
+      .node { kind := .HTTPResponseCode, keyword := [53, 48, 48], named := [("SchemaNotation", [97, 110, 121])], id := 6 } []]]]
+example : obeysF exAlien = false := by decide +kernel
+example : (compile [] exAlien).toOption.map (fun c => c.inters.map (fun x => (x.iid.path, x.responses.map (·.code)))) =
+    some [([47, 121], [[50, 48, 48], [53, 48, 48]]), ([47, 120], [[50, 48, 48]])] := by decide +kernel
+
+/-- a second Request directive under one method is rejected (`Catalog.AddRequest`: "not a unique directive"), at
+the second directive (id 14).  (Before the repair of the code the two were silently merged — a defect these
+theorems brought to light.) -/
+def exTwoRequests : List BTree := [
+  .node { kind := .Jsight, named := [("Version", [48, 46, 51])] } [],
+  .node { kind := .Post, named := [("Path", [47, 99, 97, 116, 115])], id := 10 } [
+    .node { kind := .Request, id := 13 } [.node { kind := .Headers, body := some [123, 125], id := 15 } []],
+    .node { kind := .Request, id := 14 } [.node { kind := .Body, body := some [123, 125], id := 16 } []],
+    .node { kind := .HTTPResponseCode, keyword := [50, 48, 48], named := [("SchemaNotation", [97, 110, 121])], id := 17 } []]]
+example : obeysF exTwoRequests = true := by decide +kernel
+
+/-- the diagnostic of a rejected run -/
+def errOf {α} (r : R α) : Option BErr :=
+  match r with
+  | .ok _ => none
+  | .error e => some e
+
+example : errOf (compile [] exTwoRequests) = some ⟨14, .notUnique⟩ := by decide +kernel
+example : ∀ c, compile [] exTwoRequests ≠ .ok c :=
+  second_request_rejected (a := []) (i := 0) (j := 1) (List.mem_of_getElem? (i := 1) (by rfl)) rfl (by decide)
+    rfl rfl rfl rfl
+
 
 end JSight.C04C
